@@ -339,3 +339,17 @@ func vfPanicSite(p any, stack string) string {
 	}
 	return msg + "@" + fn
 }
+
+// vfEngineFailLabel recognises the analysed engine failures from message and stack alone
+// (shared by the checks that run queries as part of something else).
+func vfEngineFailLabel(msg, stack string) string {
+	switch {
+	case strings.Contains(stack, "ProjectNone).hasRow") && strings.Contains(stack, "query.hashCols"):
+		return "ProjectNone.hasRow-nil-thread"
+	case strings.Contains(stack, "(*SemiJoin).Select") && (strings.Contains(msg, "Sels.Get can't find") || strings.Contains(stack, "query.selEnd")):
+		return "semijoin-reverse-select-off-index"
+	case strings.Contains(msg, "selOrg not full") && strings.Contains(stack, "(*Union).getLookup") && strings.Contains(stack, "(*Compatible).source2Has"):
+		return "union-disjoint-lookup-source2Has"
+	}
+	return ""
+}
